@@ -5,6 +5,7 @@
 -/
 import SifVerif.Proofs.CreateWF
 import SifVerif.Proofs.Plan
+import SifVerif.Props.C01
 namespace Sif.C12
 
 variable (sha : Bytes → Bytes) (ph : Bytes → Option Bytes)
@@ -258,5 +259,32 @@ theorem C12_deterministic_history (s : Img) (ops : List Op) (c1 c2 : List Int)
   obtain ⟨h1, h2⟩ := hcf s ops c1 hd hops
   obtain ⟨e1, e2⟩ := C12_noninterference sha ph s ops c1 c2 h1
   exact ⟨e1, e2, h2⟩
+
+/-- an image created with the nil ID and the zero time (what `OptCreateDeterministic` sets:
+    `C12_create_det_option`) is deterministic, whatever objects it is created with -/
+theorem C12_created_deterministic (be : Backend) (co : CreateOpts) (hcap : 0 ≤ co.capacity)
+    (hdoff : 128 ≤ co.doff) (hid : co.id = nilUUID) (ht : co.t = zeroTime)
+    (h : (createContainerPlan sha ph be co).2.2 = .ok) :
+    (createContainerPlan sha ph be co).2.1.isDeterministic = true := by
+  obtain ⟨_, _, hh⟩ := C01.C01_create sha ph be co hcap hdoff h
+  simp only at hh
+  obtain ⟨_, h2, h3, h4, _⟩ := hh
+  simp [Img.isDeterministic, h2, h3, h4, hid, ht]
+
+/-- **from a deterministic creation through any history without explicit times**: the same handle
+    and byte-identical contents whatever the clock reads at each step, deterministic at the end -/
+theorem C12_from_creation (be : Backend) (co : CreateOpts) (hcap : 0 ≤ co.capacity)
+    (hdoff : 128 ≤ co.doff) (hid : co.id = nilUUID) (ht : co.t = zeroTime)
+    (h : (createContainerPlan sha ph be co).2.2 = .ok) (st0 : Store)
+    (ops : List Op) (c1 c2 : List Int) (hops : ∀ op ∈ ops, plainOpt op) :
+    let s0 : Img := { (createContainerPlan sha ph be co).2.1 with st := st0 }
+    runClock sha ph s0 ops c1 = runClock sha ph s0 ops c2 ∧
+    (runClock sha ph s0 ops c1).st.buf = (runClock sha ph s0 ops c2).st.buf ∧
+    (runClock sha ph s0 ops c1).isDeterministic = true := by
+  intro s0
+  have hd : s0.isDeterministic = true := by
+    have := C12_created_deterministic sha ph be co hcap hdoff hid ht h
+    simpa [Img.isDeterministic, s0] using this
+  exact C12_deterministic_history sha ph s0 ops c1 c2 hd hops
 
 end Sif.C12
